@@ -123,6 +123,8 @@ def _latex_product(s, pos):
         m = _L_TERM.match(t.strip())
         if not m:
             raise LayoutError(f"not a LaTeX unit term: {t!r}")
+        if re.search(r"(?<!\\)[_%&#$]", m.group(1)):
+            raise LayoutError(f"LaTeX special character not escaped in {t!r}")
         name = m.group(1).replace("\\_", "_").replace("\\%", "%")
         out.append((name, pos, m.group(2)))
     return out
